@@ -17,7 +17,11 @@ gradient, no/affine transform, |p2-p1|^2 a power of two, t0 and inc integers - t
 positions exactly): there the pixel on a stop position must have the colour of the segment starting there
 (segments are left-closed).  Metamorphic oracle without any tolerance: narrow rows are also fetched pixel by pixel
 (1x1 composites) and by a horizontally mirrored walk; all three must agree bit for bit (walker history
-independence) whenever the three walks feed the walker identical parameters.
+independence) whenever the three walks feed the walker identical parameters.  Second metamorphic oracle: for every
+colour request OP_SRC/OVER/ADD x masks {none, a8 unified, a8r8g8b8 unified, a8r8g8b8 COMPONENT ALPHA} (edge-biased mask
+bytes, alpha byte 0 with non-zero colour bytes, runs of zero pixels = the iterators' skip hint; multi-row) are composited
+onto a translucent pattern once with the gradient as source and once with its own unmasked OP_SRC rendering as a plain
+bits source: equal bit for bit on the narrow pipeline, within 2^-16 per channel on the wide one (float combiners clamp).
 """
 import collections, json, os, struct, subprocess
 from concurrent.futures import ThreadPoolExecutor
@@ -177,6 +181,16 @@ def compare(o, a, m, hist, stats):
         hist["horizontal-shortcut"] += 1
     if "x" in fl:
         hist["exact-parameter-rows(no either-side tolerance)"] += 1
+    # SRC/OVER/ADD x {no mask, a8, a8r8g8b8 unified, a8r8g8b8 component alpha}: the gradient as source must give, bit for
+    # bit, what its own rendered picture gives as source (mask skip hints, stale scanline buffers, opacity flags)
+    if "C" in extra:
+        stats["combine-checked-requests"] += 1
+        if extra["C"] != ["same"]:
+            f = extra["C"][0].split(":")
+            out.append(("oracle:gradient-vs-rendered-source", "%s|%s|%s|mask-%s" % (d["kind"], "wide" if d["wide"] else "narrow", f[1], f[2]),
+                        "OP_%s with %s mask: the gradient as source differs from its OP_SRC picture as source at %s pixels; first: "
+                        "pixel %d,%d mask %s picture pixel %s: gradient source gives %s, picture source gives %s" % (
+                            f[1], f[2], f[3], int(f[4]) % d["W"], int(f[4]) // d["W"], f[7], f[8], f[5], f[6])))
     # OVER onto a non-empty destination = SRC into a temporary, then OVER (transparent pixels keep the destination)
     if "O" in extra:
         stats["over-checked-requests"] += 1
@@ -412,6 +426,9 @@ def run(ctx):
         "rows whose parameters the library computes exactly (driver flag x) get no either-side tolerance; the walk-history "
         "oracle (row vs 1x1 fetches vs mirrored walk, bit for bit) covers narrow unmasked requests with no/affine transform: "
         "radial and conical always, linear only on exact rows (elsewhere t0 + (int)(inc*i) depends on where the walk starts)",
+        "compositing beyond OP_SRC is covered by 'gradient as source == its OP_SRC picture as source' (SRC/OVER/ADD x four "
+        "mask kinds incl. component alpha, mask contents a function of the request); the combiner arithmetic itself is "
+        "C01's subject and is not modelled here",
         "pixels within 2^-12 of a colour discontinuity (coincident stops, NORMAL wrap, NONE border, radial admissibility "
         "border, conical seam) need only match one of the neighbouring colours",
         "int32 overflow in the geometry setup (c2 - c1, v - c1, stop sentinels at INT32 extremes) is outside the generated "
